@@ -62,8 +62,10 @@ func vfC07Oracle(in *vfGWInst, evFull string, pre, post *vfSnap) {
 			in.bad("c07:fanout-for-joined", "fanout state exists for joined topic %s", t)
 		}
 		for p := range post.Mesh[t] {
-			if _, ok := post.Peers[p]; !ok {
-				in.bad("c07:mesh-not-connected", "mesh[%s] contains %s which is not a connected router peer", t, p)
+			// (a peer the node has no outbound stream to yet is not in the router's peer table but can have grafted
+			// itself in over its own stream: it is a connected peer as long as its connection is up)
+			if _, ok := post.Peers[p]; !ok && !g.conn[p] {
+				in.bad("c07:mesh-not-connected", "mesh[%s] contains %s which is not a connected peer (no router entry, no connection)", t, p)
 			}
 			// "no backed-off peer is ever added", as a state invariant: whoever is in the mesh has no running backoff
 			// (a peer pruned and re-added within one heartbeat is a member before and after, but not innocent)
@@ -372,6 +374,13 @@ func vfC07Scenarios(thorough bool) []*vfGWScenario {
 	// period, our heartbeat's prune of a negatively scored member, refused GRAFTs, leaving the topic
 	mk("backoff-sources", "d2", p4, append(connAll(p4, true), "join:t"),
 		[]string{"prune:a:t:60", "prune:a:t:1", "graft:a:t", "hb", "leave:t", "join:t", "score:a:-1", "score:a:0", "adv:2100"}, d+1)
+	// S3a'': a peer that grafts itself in over its own stream while the node's stream to it is still being opened, loses
+	// its inbound stream, and whose outbound stream then fails or whose connection goes: it must not stay a member
+	{
+		pq := []vfPeerCfg{{Name: "p", Proto: "v12", IP: "10.0.0.1"}, {Name: "q", Proto: "v12", IP: "10.0.0.2"}}
+		mk("queueless-member", "d2", pq, []string{"conn:q", "sub:q:t", "join:t", "hold:p", "conn:p", "sub:p:t", "graft:p:t"},
+			[]string{"inclose:p", "failstream:p", "release:p", "disc:p", "conn:p", "graft:p:t", "hb"}, d)
+	}
 	// S3b: zero periods for opportunistic grafting / direct connect (accepted by parameter validation)
 	for _, ps := range []string{"d2og0", "d2dc0"} {
 		mk("zero-period-"+ps, ps, p4, connAll(p4, true), []string{"join:t", "leave:t", "hb", "graft:a:t", "prune:a:t", "score:a:-1", "score:b:2"}, d-1)
